@@ -29,6 +29,7 @@ type Verifier struct {
 	macroMemo   map[string]bool
 	batteryMemo map[string]*batteryResult
 	effAn       *effectAnalysis
+	infWrites   map[*ssa.Function]map[string]bool
 	qaxioms     []*qaxiom
 	wantModel   bool
 	seed        int
